@@ -72,8 +72,10 @@ def run_case(data):
             op = ch.weighted([(5, 'open'), (10, 'recv-push'), (2, 'recv-push-bad-list'), (3, 'pushed-response'),
                               (2, 'local-end'), (2, 'peer-end'), (4, 'local-enable-push'), (3, 'local-ack'),
                               (1, 'send-on-pushed'), (1, 'cleanup'), (2, 'response')])
-        if initial and op in ('local-enable-push', 'local-ack', 'recv-push-bad-list'):
-            # (these cases are about promises at the stream limit: push stays enabled and pushed responses start)
+        if initial and op in ('local-enable-push', 'local-ack', 'recv-push-bad-list', 'send-on-pushed'):
+            # (these cases are about promises at the stream limit: push stays enabled and pushed responses start;
+            # a refused local call on a pushed stream would close it in the library - known finding K03 - and
+            # with it change what counts towards the limit)
             op = ch.pick(['pushed-response', 'pushed-response', 'recv-push'])
         if op == 'peer-open':
             w.recv_headers(w.next_peer_id(), 'final', ch.chance(64))
